@@ -421,7 +421,7 @@ class Infra(Exception):
     """Trouble of the harness / third-party runtime on m itself (exit 2, never a verdict)."""
 
 
-FORMS = ["once", "twice", "shared-callable", "chained", "if-body", "mixed-opset", "nested-if-twice", "loop-body", "history"]
+FORMS = ["once", "twice", "shared-callable", "chained", "if-body", "mixed-opset", "nested-if-twice", "loop-body", "history", "name-history"]
 
 
 def input_values(rng: random.Random, m: onnx.ModelProto) -> dict:
@@ -615,6 +615,48 @@ def oracle_compose(m: onnx.ModelProto, form: str, seed: int) -> list[tuple[str, 
                             fails.append(("history-dependent-build", "the same program (same Vars) built before and after other builds around the same Inline node differs"))
                 if m.SerializeToString(deterministic=True) != before:
                     fails.append(("m-modified", "history: the caller's model changed"))
+                return fails
+            elif form == "name-history":
+                # ONE Inline node built into several programs at the SAME target opset under different
+                # outer names: permuted argument keys, other result names, an extra Inline node in front
+                # (shifts Inline_k). Nothing of one build may leak into the next.
+                f = inline(m)
+                d = direct(vals1, omit)
+                r = apply(f, A, npos, omit)
+                r_front = apply(inline(m), neg_args(), len(ins), [])
+                d_front = direct(vals2)
+                vT = rng.choice([18, 19, 20, 21])
+                n_in = len(ins)
+                plans = [("plain", 0, "res", False), ("rotated-keys", 1, "res", False), ("renamed-results", 0, "out", False),
+                         ("shifted-node", 0, "res", True), ("rotated+renamed+shifted", n_in - 1 if n_in > 1 else 0, "y", True), ("plain-again", 0, "res", False)]
+                for label, rot, oname, front in plans:
+                    keys = [f"arg_{(j + rot) % n_in}" for j in range(n_in)]
+                    o_in = {keys[j]: A[n] for j, n in enumerate(ins)}
+                    fd = {keys[j]: vals1[n] for j, n in enumerate(ins)}
+                    res, exp = {}, {}
+                    if front:
+                        for k, o in enumerate(outs):
+                            res[f"front_{k}"], exp[f"front_{k}"] = r_front[o], d_front[o]
+                    for k, o in enumerate(outs):
+                        res[f"{oname}_{k}"] = bump(vT, r[o]) if o in float_outs else r[o]
+                        exp[f"{oname}_{k}"] = d[o]
+                    try:
+                        built = build(o_in, res)
+                    except Exception as e:  # noqa: BLE001
+                        fails.append((classify_build_error(m, e), f"name-history step {label}: build raised {type(e).__name__}: {str(e)[:250]}"))
+                        break
+                    try:
+                        got = dict(zip([o.name for o in built.graph.output], ort_run(built, fd)))
+                    except Exception as e:  # noqa: BLE001
+                        fails.append((f"name-history:outer-model-rejected:{type(e).__name__}", f"name-history step {label}: onnxruntime refuses the built model: {str(e)[:250]}"))
+                        break
+                    bad = [k for k in exp if not same(got[k], exp[k])]
+                    if bad:
+                        k = bad[0]
+                        fails.append(("result-mismatch:name-history", f"name-history step {label}: output {k}: inlined {np.asarray(got[k]).tolist()} but m computes {np.asarray(exp[k]).tolist()}"))
+                        break
+                if m.SerializeToString(deterministic=True) != before:
+                    fails.append(("m-modified", "name-history: the caller's model changed"))
                 return fails
             elif form == "chained":
                 f = inline(m)
